@@ -280,7 +280,7 @@ def run(ck):
                    "exact diffusivity from the C02 corrector formula (gen.exact_unitcell_D)"]
     ck.theorems()
     rng = ck.rng
-    plan = [(2, 4)] * ck.n(14, 60) + [(3, 2)] * ck.n(4, 20) + [(3, 3)] * ck.n(1, 12)
+    plan = [(2, 4)] * ck.n(14, 90) + [(2, 6)] * ck.n(0, 15) + [(3, 2)] * ck.n(4, 40) + [(3, 3)] * ck.n(1, 20) + [(3, 4)] * ck.n(0, 5)
     plan += [("pyrope", 2)] * ck.n(1, 2)
     terms, meta = [], []
     stats = {"ratio_res_conv": [], "K_far": [], "pair_rel": [], "conv": [], "res": []}
